@@ -1,13 +1,13 @@
 #!/bin/bash
 # usage: tools/try_benign.sh <patch> [Cxx ...]  -- apply a behaviour-preserving change to a scratch worktree and run checks (default: all)
 P="$1"; shift
-WT=/tmp/vs/base
+WT=${BENIGN_WT:-/tmp/vs/base}
 git -C $WT checkout -q -- .
 git -C $WT apply --check "$P" 2>/dev/null || { echo "PATCH DOES NOT APPLY: $P"; exit 3; }
 git -C $WT apply "$P"
 CH="${@:-C01 C02 C03 C04 C05 C06 C07 C08 C09 C10 C11 C12 C13 C14 C15 C16 C17}"
 cd /verif
-echo $CH | tr ' ' '\n' | xargs -P8 -I{} sh -c 'VERIF_REPO='$WT' VERIF_EVIDENCE_DIR=/tmp/matrix_ev ./check {} >/tmp/benign_{}.out 2>&1; echo "{}=$?"' | sort | tr '\n' ' '
+echo $CH | tr ' ' '\n' | xargs -P8 -I{} sh -c 'VERIF_REPO='$WT' VERIF_EVIDENCE_DIR=/tmp/matrix_ev ./check {} >/tmp/benign${BENIGN_TAG}_{}.out 2>&1; echo "{}=$?"' | sort | tr '\n' ' '
 echo
-for c in $CH; do if ! grep -q "^== " /tmp/benign_$c.out || grep -q "^VIOLATION\|ANALYSIS-BROKEN" /tmp/benign_$c.out; then echo "--- $c"; grep -v conda /tmp/benign_$c.out | grep -B1 -A3 "^\S*: \[\|ANALYSIS-BROKEN" | grep -v "^VIOLATION\|^--" | cut -c1-300 | head -14; fi; done
+for c in $CH; do if ! grep -q "^== " /tmp/benign${BENIGN_TAG}_$c.out || grep -q "^VIOLATION\|ANALYSIS-BROKEN" /tmp/benign${BENIGN_TAG}_$c.out; then echo "--- $c"; grep -v conda /tmp/benign${BENIGN_TAG}_$c.out | grep -B1 -A3 "^\S*: \[\|ANALYSIS-BROKEN" | grep -v "^VIOLATION\|^--" | cut -c1-300 | head -14; fi; done
 git -C $WT checkout -q -- .
